@@ -224,6 +224,14 @@ func c20windows(thorough bool) []c20window {
 	return wins
 }
 
+func utcs(ts []rt.Time) []rt.Time {
+	out := make([]rt.Time, len(ts))
+	for i, t := range ts {
+		out[i] = t.UTC()
+	}
+	return out
+}
+
 type actionRec struct{ fired *[]string }
 
 func (a actionRec) Do(job gen.Atom, node gen.Node, at rt.Time) error {
@@ -352,6 +360,57 @@ func init() {
 					cr.RemoveJob("bad")
 				}
 				r.Executions++
+			}
+			// reported run times of jobs in zones with daylight-saving time, over every boundary window
+			// (JobSchedule and Schedule report instants; the spec is matched in the job's own zone)
+			zspecs := []string{"30 12 * * *", "30 2 * * *", "0 3 * * *", "*/30 1-3 * * *", "15 0 L * *", "0 0 * * 7L"}
+			for _, ln := range c20zones {
+				loc, _ := rt.LoadLocation(ln)
+				for zi, zs := range zspecs {
+					name := gen.Atom(fmt.Sprintf("z%d", zi))
+					ref, _ := refParse(zs)
+					if err := cr.AddJob(gen.CronJob{Name: name, Spec: zs, Location: loc, Action: actionRec{&fired}}); err != nil {
+						r.Fail("valid-spec-rejected", "AddJob(%q, %s) returned %v", zs, ln, err)
+						continue
+					}
+					for _, win := range c20windows(ctx.Thorough) {
+						if win.from.Location().String() != ln {
+							continue
+						}
+						// the window starts one hour before a day boundary of the zone, so that the offset at its start
+						// differs from the offset after the transition inside it
+						since := win.from.Add(-rt.Hour).UTC()
+						period := rt.Duration(win.hours) * rt.Hour
+						got, err := cr.JobSchedule(name, since, period)
+						r.Executions++
+						if err != nil {
+							r.Fail("jobschedule-error", "%q in %s: %v", zs, ln, err)
+							continue
+						}
+						var want []rt.Time
+						for tm := since; tm.Before(since.Add(period)); tm = tm.Add(rt.Minute) {
+							if ref.match(tm.In(loc)) {
+								want = append(want, tm)
+							}
+						}
+						if fmt.Sprint(utcs(got)) != fmt.Sprint(utcs(want)) {
+							r.Fail("jobschedule-mismatch", "JobSchedule(%q, zone %s) from %s over %d h returned %d run times, crontab rules give %d (first difference: %s)", zs, ln, since.Format("2006-01-02 15:04Z"), win.hours, len(got), len(want), firstDiff(utcs(got), utcs(want)))
+						}
+						// Schedule (all jobs) must list the same instants for this job
+						var viaAll []rt.Time
+						for _, sc := range cr.Schedule(since, period) {
+							for _, j := range sc.Jobs {
+								if j == name {
+									viaAll = append(viaAll, sc.Time)
+								}
+							}
+						}
+						if fmt.Sprint(utcs(viaAll)) != fmt.Sprint(utcs(want)) {
+							r.Fail("schedule-mismatch", "Schedule() lists %q (zone %s) from %s at %d instants, crontab rules give %d (first difference: %s)", zs, ln, since.Format("2006-01-02 15:04Z"), len(viaAll), len(want), firstDiff(utcs(viaAll), utcs(want)))
+						}
+					}
+					cr.RemoveJob(name)
+				}
 			}
 			// Schedule (all jobs) agrees with JobSchedule
 			cr.AddJob(gen.CronJob{Name: "a", Spec: "*/20 * * * *", Location: rt.UTC, Action: actionRec{&fired}})
